@@ -175,6 +175,7 @@ class DictDecoder:
         qname = data["qname"]
         xsi_type = data["type"]
         params = data["value"]
+        self.verify_derived_names(qname, xsi_type)
 
         generic = self.context.class_type.derived_element
 
@@ -194,6 +195,23 @@ class DictDecoder:
             value = self.bind_dataclass(params, clazz)
 
         return generic(qname=qname, type=xsi_type, value=value)
+
+    @classmethod
+    def verify_derived_names(cls, qname: Any, xsi_type: Any) -> None:
+        """Verify the qname and type of a derived element are strings.
+
+        Args:
+            qname: The derived element qualified name
+            xsi_type: The derived element xsi:type or None
+
+        Raises:
+            ParserError: If the qname is not a string or the type is
+                neither a string nor None.
+        """
+        if not isinstance(qname, str) or not isinstance(xsi_type, (str, type(None))):
+            raise ParserError(
+                f"Invalid derived element qname `{qname}` or type `{xsi_type}`"
+            )
 
     def bind_best_dataclass(self, data: dict, classes: Iterable[type[T]]) -> T:
         """Bind the input data to all the given classes and return best match.
@@ -412,6 +430,7 @@ class DictDecoder:
         qname = data["qname"]
         xsi_type = data["type"]
         params = data["value"]
+        self.verify_derived_names(qname, xsi_type)
 
         if var.elements:
             choice = var.find_choice(qname)
